@@ -810,6 +810,7 @@ func resetKnobs() {
 	m.MaxMergeSelfLevel = 0
 	m.MaxUnorderedFileNumber = 64
 	immutable.SetMaxRowsPerSegment4TsStore(0)
+	setBlockLimit(0)
 }
 
 func genVal(r *hx.Rng, f string) string {
@@ -979,6 +980,13 @@ func runHistory(c *hx.Ctx, r *hx.Rng, idx int, workers int, thorough bool) error
 	}
 	applyKnobs(k)
 	defer resetKnobs()
+	rmeta := r.Fork()
+	setBlockLimit([]int{0, 2, 1}[rmeta.Intn(3)]) // chunk metas per block: default (one block), 2, 1
+	metaSeen := map[string]bool{}
+	metaRanges := 8
+	if thorough {
+		metaRanges = 30
+	}
 	nParts := []int{1, 2}[r.Intn(2)]
 	rc := &recorder{root: root, imgRoot: imgRoot, r: r.Fork(), allSteps: thorough, notes: map[string]int{}}
 	rc.cond = sync.NewCond(&rc.mu)
@@ -1095,6 +1103,19 @@ func runHistory(c *hx.Ctx, r *hx.Rng, idx int, workers int, thorough bool) error
 			line := c.Emit(fmt.Sprintf("open %d", idx), "ok")
 			c.Violation(line, "", fmt.Sprintf("history %d after %s (%s): dump %q (%v), before %q", idx, name, k.String(), got, derr, want))
 			abandon = true // everything later in this history would only repeat the difference
+		}
+		// the metadata the read path prunes with, and reads bounded at every stored boundary
+		if !abandon {
+			w := "any"
+			if op0 := strings.Fields(name)[0]; op0 == "level" || op0 == "full" {
+				switch k.mergeFlag {
+				case util.StreamingCompact:
+					w = "stream"
+				case util.NonStreamingCompact:
+					w = "builder"
+				}
+			}
+			checkMeta(c, sh, mst, spec, rmeta, fmt.Sprintf("history %d after %s (%s, %d chunk metas per block)", idx, name, k.String(), blockLimit), metaSeen, w, metaRanges)
 		}
 		rc.mu.Lock()
 		ros := rc.reorgs[first:]
@@ -1428,6 +1449,22 @@ func Run(c *hx.Ctx) error {
 			}
 		}
 		if part == "paths" {
+			return nil
+		}
+	}
+	// the metadata the read path prunes with: audit and bounded reads
+	nMeta := 2
+	if thorough {
+		nMeta = 24
+	}
+	if part := c.Arg("part", ""); part == "" || part == "meta" {
+		rmeta := hx.NewRng(c.Seed ^ 0x6d657461)
+		for i := 0; i < nMeta; i++ {
+			if err := runMetaHistory(c, rmeta.Fork(), i, thorough); err != nil {
+				return err
+			}
+		}
+		if part == "meta" {
 			return nil
 		}
 	}
